@@ -52,6 +52,10 @@ func newCtx(p, a, b int) *ctx {
 	// the heads of log B carry a signed extension line with characters that matter to formatting code:
 	// whatever reports a head must pass it on verbatim
 	x.B.DefaultExtra = "operator note: 100% %s %d %!v {} \\ \u00e9\n"
+	if p == 2 && a == p+1 && b == p+1 {
+		// one family of worlds also carries a line longer than 64 KiB (line-oriented readers have limits)
+		x.B.DefaultExtra += strings.Repeat("L", 70000) + "\n"
+	}
 	return x
 }
 
